@@ -3,6 +3,7 @@
 use std::borrow::Cow;
 use std::cell::UnsafeCell;
 use std::collections::HashMap;
+use std::collections::HashSet;
 use std::sync::Arc;
 use std::sync::atomic::AtomicBool;
 use std::sync::atomic::AtomicUsize;
@@ -37,6 +38,10 @@ static NEXT_COLLECT_ID: AtomicUsize = AtomicUsize::new(0);
 static GLOBAL_COLLECTOR: Mutex<Option<GlobalCollector>> = Mutex::new(None);
 static SPSC_RXS: Mutex<Vec<Receiver<CollectCommand>>> = Mutex::new(Vec::new());
 static REPORTER_READY: AtomicBool = AtomicBool::new(false);
+// Traces whose cancel signal could not be put into the calling thread's command queue (the queue
+// was full, so the signal is parked on that thread). The collector looks here before it handles a
+// commit, which may arrive through another thread's queue while the cancel is still parked.
+static PARKED_CANCELS: Mutex<Option<HashSet<usize>>> = Mutex::new(None);
 
 pub const NOT_SAMPLED_COLLECT_ID: usize = usize::MAX;
 
@@ -58,10 +63,11 @@ fn send_command(cmd: CollectCommand) {
         .ok();
 }
 
-fn force_send_command(cmd: CollectCommand) {
+/// Returns whether the command is in the queue, i.e. visible to the collector.
+fn force_send_command(cmd: CollectCommand) -> bool {
     COMMAND_SENDER
         .try_with(|sender| unsafe { (*sender.get()).force_send(cmd) })
-        .ok();
+        .unwrap_or(false)
 }
 
 /// Sets the reporter and its configuration for the current application.
@@ -139,7 +145,12 @@ impl GlobalCollect {
     }
 
     pub fn drop_collect(&self, collect_id: usize) {
-        force_send_command(CollectCommand::DropCollect(DropCollect { collect_id }));
+        if !force_send_command(CollectCommand::DropCollect(DropCollect { collect_id })) {
+            PARKED_CANCELS
+                .lock()
+                .get_or_insert_with(HashSet::new)
+                .insert(collect_id);
+        }
     }
 
     // Note that: relationships are not built completely for now so a further job is needed.
@@ -363,6 +374,21 @@ impl GlobalCollector {
         for StartCollect { collect_id } in self.start_collects.drain(..) {
             self.active_collectors
                 .insert(collect_id, ActiveCollector::default());
+        }
+
+        // A trace is committed by the thread that finishes its root, which need not be the thread
+        // that called `cancel()`: a cancel parked on its thread counts as received before the
+        // commit.
+        if !commit_collects.is_empty() {
+            if let Some(parked_cancels) = PARKED_CANCELS.lock().as_mut() {
+                for CommitCollect { collect_id } in commit_collects.iter() {
+                    if parked_cancels.remove(collect_id) {
+                        drop_collects.push(DropCollect {
+                            collect_id: *collect_id,
+                        });
+                    }
+                }
+            }
         }
 
         // A command that only shows up in the second drain pass may be younger than commands that
